@@ -159,7 +159,7 @@ func run(tier string) int {
 				var seqs, nt, viol, pruned, opsx int64
 				for it := range ch {
 					name := it.cfg.Name()
-					grp := ""
+					grp, grpCounted := "", false
 					var grpOps [4]storediff.Op
 					pruned += storediff.Enumerate(alpha, it.prefix, L, func(seq []storediff.Op) {
 						v, n := storediff.Run(it.cfg, "", seq, st, nil)
@@ -179,8 +179,14 @@ func run(tier string) int {
 							if grp == "" || g != grpOps {
 								grpOps = g
 								grp = name + "|" + strings.Join(storediff.OpStrings(seq[:4]), ";")
+								grpCounted = false
 							}
-							r.Case(grp, isNT)
+							if isNT && !grpCounted {
+								r.Case(grp, true) // hashes and remembers the group id
+								grpCounted = true
+							} else {
+								r.Case("", false) // counts the evaluation only
+							}
 						}
 						if v != nil && v.Harness {
 							r.Inconclusive("harness failure: " + v.What)
@@ -213,7 +219,7 @@ func run(tier string) int {
 		"length": L, "alphabet": storediff.OpStrings(alpha), "modes": modeNames,
 		"sequences_executed": sysSeqs, "sequences_nontrivial": sysNT, "sequences_stopped_at_violation": sysViol,
 		"branches_pruned_commit_tx_without_session": sysPruned, "ops_executed": sysOpsExecuted,
-		"case_granularity": map[bool]string{true: "one Case per sequence", false: "one Case per sequence, but the id that feeds distinct_nontrivial is the (mode, first four ops) group; the exact count of non-trivial sequences is sequences_nontrivial"}[perSeqCase],
+		"case_granularity": map[bool]string{true: "one Case per sequence", false: "one Case per sequence (evaluations is exact); distinct_nontrivial counts the (mode, first four ops) groups that hold a non-trivial sequence, the exact count of non-trivial sequences is the counter sequences_nontrivial"}[perSeqCase],
 		"note":             "all sequences of exactly this length are executed; every shorter sequence is a prefix of one of them and every op is compared",
 	})
 	r.Exhaustive = true
